@@ -2,3 +2,305 @@
 
 /// introspection for harnesses of sibling modules
 pub fn counter_value(c: &DataEntityCounter) -> usize { c.count }
+
+//-------------------------------------------------------------------------------------------------------------------
+// Command::apply of the three runner-bound commands, with the runner replaced by a recorder (C02/C03/C05/C12/C18)
+//-------------------------------------------------------------------------------------------------------------------
+use crate::react::syscommand_runner::verif_h::{mk_world, Log};
+use crate::react::event_readers::verif_h::*;
+use crate::react::system_event_reader::verif_h::*;
+use crate::react::entity_reaction_readers::verif_h::*;
+use crate::react::despawn_reader::verif_h::*;
+use core::any::TypeId;
+
+/// what the (stubbed) runner was called with: (calls, command, setup reactor, setup kind, cleanup kind)
+/// kinds: 0 default/none, 1 system event, 2 entity reaction, 3 despawn, 4 entity event, 5 broadcast, 9 unknown
+pub static mut RUNNER_CALLS: usize = 0x5EED_0900;
+pub static mut RUNNER_ARGS: (u32, u32, u32, u8, u8) = (0x5EED, 0, 0, 0, 0);
+pub fn runner_calls() -> usize { unsafe { RUNNER_CALLS - 0x5EED_0900 } }
+fn setup_kind(f: fn(&mut World, SystemCommand)) -> u8
+{
+    if f == start_system_event as fn(&mut World, SystemCommand) { 1 }
+    else if f == start_entity_reaction as fn(&mut World, SystemCommand) { 2 }
+    else if f == start_despawn_reaction as fn(&mut World, SystemCommand) { 3 }
+    else if f == start_entity_event as fn(&mut World, SystemCommand) { 4 }
+    else if f == start_broadcast_event as fn(&mut World, SystemCommand) { 5 }
+    else { 0 }
+}
+fn cleanup_kind(c: &SystemCommandCleanup) -> u8
+{
+    match crate::react::system_command_spawning::verif_h::cleanup_fn(c)
+    {
+        None => 0,
+        Some(f) =>
+            if f == end_system_event as fn(&mut World) { 1 }
+            else if f == end_entity_reaction as fn(&mut World) { 2 }
+            else if f == end_despawn_reaction as fn(&mut World) { 3 }
+            else if f == end_entity_event as fn(&mut World) { 4 }
+            else if f == end_broadcast_event as fn(&mut World) { 5 }
+            else { 9 },
+    }
+}
+pub fn record_runner(_world: &mut World, command: SystemCommand, setup: SystemCommandSetup, cleanup: SystemCommandCleanup)
+{
+    let (reactor, f) = crate::react::syscommand_runner::verif_h::setup_parts(&setup);
+    unsafe
+    {
+        RUNNER_CALLS += 1;
+        RUNNER_ARGS = (command.index(), command.generation(), reactor.index(), setup_kind(f), cleanup_kind(&cleanup));
+    }
+}
+fn called_once_with(command: SystemCommand, kind: u8) -> bool
+{
+    let a = unsafe { RUNNER_ARGS };
+    runner_calls() == 1 && a.0 == command.index() && a.1 == command.generation() && a.3 == kind && a.4 == kind
+        && (kind == 0 || a.2 == command.index())
+}
+
+macro_rules! apply_harness {
+    ($name:ident, $body:block) => {
+        #[kani::proof]
+        #[kani::stub(core::any::TypeId::of, crate::vh::stub_typeid_of)]
+        #[kani::stub(<core::any::TypeId as crate::vh::PEq>::eq, crate::vh::stub_typeid_eq)]
+        #[kani::stub(crate::react::syscommand_runner::syscommand_runner, record_runner)]
+        #[kani::unwind(3)]
+        fn $name() $body
+    };
+}
+
+/// the target of a command: a live entity or (symbolically) a stale id - `apply` must not care (the runner decides)
+fn target(world: &mut World) -> SystemCommand
+{
+    let live = world.spawn_empty().id();
+    if kani::any() { SystemCommand(live) } else { SystemCommand(Entity::m_new(live.index(), live.generation() + 1)) }
+}
+
+apply_harness!(apply_system_command, {
+    let mut world = mk_world();
+    let s = target(&mut world);
+    s.apply(&mut world);
+    assert!(called_once_with(s, 0), "C02: applying a system command hands it to the runner exactly once, with no event setup/cleanup");
+    assert!(sysevt_prepared_len(world.resource::<SystemEventAccessTracker>()) == 0 && evt_prepared_len(world.resource::<EventAccessTracker>()) == 0
+        && ent_prepared_len(world.resource::<EntityReactionAccessTracker>()) == 0 && desp_prepared_len(world.resource::<DespawnAccessTracker>()) == 0,
+        "C03: a manual run prepares no event data");
+    kani::cover!(true, "end of harness reached");
+    std::mem::forget(world);
+});
+
+apply_harness!(apply_event_command, {
+    let mut world = mk_world();
+    let s = target(&mut world);
+    let data = world.spawn_empty().id();
+    EventCommand{ system: s, data_entity: data }.apply(&mut world);
+    assert!(called_once_with(s, 1), "C02/C05: a system event is handed to the runner exactly once - also when its target is gone - with the system-event setup and cleanup");
+    let t = world.resource::<SystemEventAccessTracker>();
+    assert!(sysevt_prepared_len(t) == 1 && sysevt_prepared_at(t, 0) == (s, data) && !sysevt_reacting(t), "C03: its data is pending for exactly that system, nobody is reacting yet");
+    assert!(evt_prepared_len(world.resource::<EventAccessTracker>()) == 0 && ent_prepared_len(world.resource::<EntityReactionAccessTracker>()) == 0);
+    kani::cover!(true, "end of harness reached");
+    std::mem::forget(world);
+});
+
+apply_harness!(apply_reaction_resource, {
+    let mut world = mk_world();
+    let s = target(&mut world);
+    ReactionCommand::Resource{ reactor: s }.apply(&mut world);
+    assert!(called_once_with(s, 0), "C02: a resource-mutation reaction runs its reactor through the runner once, no event data");
+    assert!(evt_prepared_len(world.resource::<EventAccessTracker>()) == 0 && ent_prepared_len(world.resource::<EntityReactionAccessTracker>()) == 0);
+    kani::cover!(true, "end of harness reached");
+    std::mem::forget(world);
+});
+
+apply_harness!(apply_reaction_entity, {
+    let mut world = mk_world();
+    let s = target(&mut world);
+    let source = world.spawn_empty().id();
+    let rt = match crate::vh::any_below(3) { 0 => EntityReactionType::Insertion(TypeId::of::<u8>()), 1 => EntityReactionType::Mutation(TypeId::of::<u8>()), _ => EntityReactionType::Removal(TypeId::of::<u16>()) };
+    ReactionCommand::EntityReaction{ reaction_source: source, reaction_type: rt, reactor: s }.apply(&mut world);
+    assert!(called_once_with(s, 2), "C02: an entity reaction is handed to the runner exactly once with the entity-reaction setup and cleanup");
+    let t = world.resource::<EntityReactionAccessTracker>();
+    assert!(ent_prepared_len(t) == 1 && ent_prepared_at(t, 0) == (s, source, rt) && !ent_reacting(t), "C03: source entity and reaction type are pending for exactly that reactor");
+    assert!(evt_prepared_len(world.resource::<EventAccessTracker>()) == 0);
+    kani::cover!(true, "end of harness reached");
+    std::mem::forget(world);
+});
+
+apply_harness!(apply_reaction_despawn, {
+    let mut world = mk_world();
+    let s = target(&mut world);
+    let source = Entity::m_new(5, 3);
+    ReactionCommand::Despawn{ reaction_source: source, reactor: s, handle: ReactorHandle::Persistent(s) }.apply(&mut world);
+    assert!(called_once_with(s, 3), "C02/C08: a despawn reaction is handed to the runner exactly once with the despawn setup and cleanup");
+    let t = world.resource::<DespawnAccessTracker>();
+    assert!(desp_prepared_len(t) == 1 && desp_prepared_at(t, 0) == (s, source) && desp_prepared_handle(t, 0).sys_command() == s && !desp_reacting(t),
+        "C03/C07: the despawned entity and the reactor's handle are pending for exactly that reactor");
+    kani::cover!(true, "end of harness reached");
+    std::mem::forget(world);
+});
+
+apply_harness!(apply_reaction_entity_event, {
+    let mut world = mk_world();
+    let s = target(&mut world);
+    let tgt = world.spawn_empty().id();
+    let data = world.spawn_empty().id();
+    ReactionCommand::EntityEvent{ target: tgt, data_entity: data, reactor: s }.apply(&mut world);
+    assert!(called_once_with(s, 4), "C02/C05: an entity-event reaction is handed to the runner exactly once - also when the reactor is gone, so that its share of the payload is released");
+    let t = world.resource::<EventAccessTracker>();
+    assert!(evt_prepared_len(t) == 1 && evt_prepared_at(t, 0) == (s, data), "C03: the event's data entity is pending for that reactor");
+    let t = world.resource::<EntityReactionAccessTracker>();
+    assert!(ent_prepared_len(t) == 1 && ent_prepared_at(t, 0).0 == s && ent_prepared_at(t, 0).1 == tgt && matches!(ent_prepared_at(t, 0).2, EntityReactionType::Event(_)),
+        "C03/C16: the event's target is pending as the reaction source");
+    kani::cover!(true, "end of harness reached");
+    std::mem::forget(world);
+});
+
+apply_harness!(apply_reaction_broadcast, {
+    let mut world = mk_world();
+    let s = target(&mut world);
+    let data = world.spawn_empty().id();
+    ReactionCommand::BroadcastEvent{ data_entity: data, reactor: s }.apply(&mut world);
+    assert!(called_once_with(s, 5), "C02/C05: a broadcast reaction is handed to the runner exactly once - also when the reactor is gone, so that its share of the payload is released");
+    let t = world.resource::<EventAccessTracker>();
+    assert!(evt_prepared_len(t) == 1 && evt_prepared_at(t, 0) == (s, data) && !evt_reacting(t), "C03: the event's data entity is pending for that reactor");
+    assert!(ent_prepared_len(world.resource::<EntityReactionAccessTracker>()) == 0);
+    kani::cover!(true, "end of harness reached");
+    std::mem::forget(world);
+});
+
+//-------------------------------------------------------------------------------------------------------------------
+// what the setup / cleanup function pairs do (C03/C04/C05/C07/C11): start_* claims the pending data, end_* releases it
+//-------------------------------------------------------------------------------------------------------------------
+/// event payload whose Drop is observable
+pub struct Payload(pub u8);
+pub static mut PAYLOAD_DROPS: usize = 0x5EED_0A00;
+pub fn payload_drops() -> usize { unsafe { PAYLOAD_DROPS - 0x5EED_0A00 } }
+impl Drop for Payload { fn drop(&mut self) { unsafe { PAYLOAD_DROPS += 1; } } }
+
+macro_rules! pair_harness {
+    ($name:ident, $body:block) => {
+        #[kani::proof]
+        #[kani::stub(core::any::TypeId::of, crate::vh::stub_typeid_of)]
+        #[kani::stub(<core::any::TypeId as crate::vh::PEq>::eq, crate::vh::stub_typeid_eq)]
+        #[kani::unwind(4)]
+        fn $name() $body
+    };
+}
+
+/// C05/C03/C04/C11: broadcast: `start` exposes exactly the data pending for this reactor and marks it reacting; `end` clears
+/// the flag and takes this reader's share off the payload: the payload is dropped (once) iff this was the last reader.
+pair_harness!(pair_broadcast_event, {
+    let mut world = mk_world();
+    world.m_drop_table::<(BroadcastEventData<Payload>, DataEntityCounter)>();
+    let s = SystemCommand(Entity::m_new(3, 1));
+    let other = SystemCommand(Entity::m_new(4, 1));
+    let readers = crate::vh::any_below(3) as usize + 1;
+    let data = world.spawn((BroadcastEventData::new(Payload(7)), DataEntityCounter::new(readers))).id();
+    let other_data = world.spawn_empty().id();
+    world.resource_mut::<EventAccessTracker>().prepare(other, other_data);      // somebody else's pending event stays untouched
+    world.resource_mut::<EventAccessTracker>().prepare(s, data);
+    start_broadcast_event(&mut world, s);
+    {
+        let t = world.resource::<EventAccessTracker>();
+        assert!(evt_reacting(t) && evt_data_entity(t) == data, "C03: the run sees the data of the event that caused it");
+        assert!(evt_prepared_len(t) == 1 && evt_prepared_at(t, 0) == (other, other_data), "C03/C12: other systems' pending events are untouched");
+    }
+    assert!(payload_drops() == 0 && world.m_alive(data), "C05: the payload is alive during the run");
+    end_broadcast_event(&mut world);
+    assert!(!evt_reacting(world.resource::<EventAccessTracker>()), "C04/C11: after the run nobody is reacting");
+    if readers == 1 { assert!(!world.m_alive(data) && payload_drops() == 1, "C05: the last reader's cleanup drops the payload, once"); }
+    else
+    {
+        assert!(world.m_alive(data) && payload_drops() == 0, "C05: the payload outlives a reader that is not the last");
+        assert!(counter_value(world.get::<DataEntityCounter>(data).unwrap()) == readers - 1, "C05: exactly one share is taken off");
+    }
+    kani::cover!(readers == 1, "last reader"); kani::cover!(readers == 3, "first of three readers");
+    std::mem::forget(world);
+});
+
+/// entity event: as broadcast, plus the target entity is exposed as the reaction source and that flag is cleared too
+pair_harness!(pair_entity_event, {
+    let mut world = mk_world();
+    world.m_drop_table::<(EntityEventData<Payload>, DataEntityCounter)>();
+    let s = SystemCommand(Entity::m_new(3, 1));
+    let tgt = Entity::m_new(5, 2);
+    let readers = crate::vh::any_below(2) as usize + 1;
+    let data = world.spawn((EntityEventData::new(tgt, Payload(7)), DataEntityCounter::new(readers))).id();
+    world.resource_mut::<EntityReactionAccessTracker>().prepare(s, tgt, EntityReactionType::Event(TypeId::of::<()>()));
+    world.resource_mut::<EventAccessTracker>().prepare(s, data);
+    start_entity_event(&mut world, s);
+    {
+        let t = world.resource::<EventAccessTracker>();
+        assert!(evt_reacting(t) && evt_data_entity(t) == data && evt_prepared_len(t) == 0, "C03: the event's data is exposed");
+        let t = world.resource::<EntityReactionAccessTracker>();
+        assert!(ent_reacting(t) && ent_current(t).0 == s && ent_current(t).1 == tgt && ent_prepared_len(t) == 0, "C03/C16: the event's target is exposed as the reaction source for this reactor");
+    }
+    end_entity_event(&mut world);
+    assert!(!evt_reacting(world.resource::<EventAccessTracker>()) && !ent_reacting(world.resource::<EntityReactionAccessTracker>()), "C04/C11: both flags are cleared");
+    assert!(world.m_alive(data) == (readers > 1) && payload_drops() == (if readers == 1 { 1 } else { 0 }), "C05: payload dropped once, by the last reader only");
+    kani::cover!(readers == 1, "last reader"); kani::cover!(readers == 2, "not the last reader");
+    std::mem::forget(world);
+});
+
+/// system event: single reader: the data entity is despawned by the cleanup, whether or not the payload was taken
+pair_harness!(pair_system_event, {
+    let mut world = mk_world();
+    world.m_drop_table::<(SystemEventData<Payload>,)>();
+    let s = SystemCommand(Entity::m_new(3, 1));
+    let data = world.spawn(SystemEventData::new(Payload(7))).id();
+    world.resource_mut::<SystemEventAccessTracker>().prepare(s, data);
+    start_system_event(&mut world, s);
+    {
+        let t = world.resource::<SystemEventAccessTracker>();
+        assert!(sysevt_reacting(t) && sysevt_data_entity(t) == data && sysevt_prepared_len(t) == 0, "C03: the system event's data is exposed to its target");
+    }
+    assert!(payload_drops() == 0);
+    end_system_event(&mut world);
+    assert!(!sysevt_reacting(world.resource::<SystemEventAccessTracker>()), "C04/C11: flag cleared");
+    assert!(!world.m_alive(data) && payload_drops() == 1, "C05: an untaken system-event payload is dropped with its bookkeeping entity when the run ends");
+    kani::cover!(true, "end of harness reached");
+    std::mem::forget(world);
+});
+
+/// entity reaction: source + type exposed for exactly this reactor; cleared at the end
+pair_harness!(pair_entity_reaction, {
+    let mut world = mk_world();
+    let s = SystemCommand(Entity::m_new(3, 1));
+    let other = SystemCommand(Entity::m_new(4, 1));
+    let src = Entity::m_new(5, 2);
+    let rt = EntityReactionType::Mutation(TypeId::of::<u8>());
+    world.resource_mut::<EntityReactionAccessTracker>().prepare(s, src, rt);
+    start_entity_reaction(&mut world, s);
+    {
+        let t = world.resource::<EntityReactionAccessTracker>();
+        assert!(ent_reacting(t) && ent_current(t).0 == s && ent_current(t).1 == src && matches!(ent_current(t).2, EntityReactionType::Mutation(_)), "C03: source and reaction type of the causing event");
+        assert!(ent_prepared_len(t) == 0, "C03: the pending entry is consumed");
+    }
+    end_entity_reaction(&mut world);
+    assert!(!ent_reacting(world.resource::<EntityReactionAccessTracker>()), "C04/C11: flag cleared");
+    kani::cover!(true, "end of harness reached");
+    std::mem::forget(world);
+});
+
+/// despawn reaction: the despawned entity is exposed; the reactor's handle is held during the run and released at its
+/// end - a ref-counted reactor whose last handle this is, is then (and only then) handed to the collector
+pair_harness!(pair_despawn_reaction, {
+    let mut world = mk_world();
+    let s = SystemCommand(Entity::m_new(3, 1));
+    let src = Entity::m_new(5, 2);
+    let handle = crate::react::react_commands::verif_h::cleanup_handle(world.resource::<AutoDespawner>(), s);
+    world.resource_mut::<DespawnAccessTracker>().prepare(s, src, handle);
+    assert!(world.resource::<AutoDespawner>().try_recv().is_none(), "C07: a pending despawn reaction keeps its reactor");
+    start_despawn_reaction(&mut world, s);
+    {
+        let t = world.resource::<DespawnAccessTracker>();
+        assert!(desp_reacting(t) && desp_source(t) == src && desp_holds_handle(t) && desp_prepared_len(t) == 0, "C03/C08: the despawned entity is exposed to the reactor");
+    }
+    assert!(world.resource::<AutoDespawner>().try_recv().is_none(), "C07: the reactor is kept while its despawn reaction runs");
+    end_despawn_reaction(&mut world);
+    {
+        let t = world.resource::<DespawnAccessTracker>();
+        assert!(!desp_reacting(t) && !desp_holds_handle(t), "C04/C11: flag cleared, handle released");
+    }
+    assert!(world.resource::<AutoDespawner>().try_recv() == Some(*s) && world.resource::<AutoDespawner>().try_recv().is_none(), "C07: released exactly once, after the run");
+    kani::cover!(true, "end of harness reached");
+    std::mem::forget(world);
+});
